@@ -17,10 +17,14 @@
    ASan/UBSan, over the same systematic and random histories as C01/C03/C04.
    Trivially relocatable element types (SlotsTR.v): a bitwise relocation leaves its source RAW (no object, no destructor) and is a
    lifetime error of the model on a dead source or a live destination; [C02_tr_*]: the shifting helpers, erase and insertion of
-   the trivially relocatable overloads never commit one, destroy every removed object exactly once and give the specified list. *)
+   the trivially relocatable overloads never commit one, destroy every removed object exactly once and give the specified list.
+   Whole-content transfers between two storages (Transfer.v, both flavours): [C02_swap_deep] (swap of inline storages / swap2),
+   [C02_move_n] (move assignment between inline storages), [C02_relocate_to_new_buffer] (growth, shrink_to_fit, inline <-> heap) never
+   commit a lifetime error, exchange / hand over the contents as lists, leave every vacated slot raw, and conserve the number of
+   objects alive ([..._conserves]): nothing is leaked, nothing destroyed twice. *)
 From Coq Require Import ZArith List Bool.
 From Amc Require Import Slots Erase Alias MemAlgos.
-From Amc Require Throw EmplaceGrow ThrowMove SlotsTR.
+From Amc Require Throw EmplaceGrow ThrowMove SlotsTR Transfer.
 Import ListNotations.
 
 Theorem C02_insert_count :
@@ -71,3 +75,53 @@ Theorem C02_tr_shift_right_count :
     (forall j, pos <= j < pos + count -> m' j = Throw.Raw) /\ (forall j, pos + count <= j < size + count -> m' j = m (j - count)) /\
     (forall j, size + count <= j -> m' j = m j).
 Proof. exact SlotsTR.shift_right_cnt_inv. Qed.
+
+(* ---- whole-content transfers between two storages (tr = true: trivially relocatable flavour) ---- *)
+Import Transfer.
+Theorem C02_swap_deep :
+  forall tr m th t b1 n1 cap1 b2 n2 cap2,
+  Rng m b1 n1 cap1 -> Rng m b2 n2 cap2 -> Disj b1 cap1 b2 cap2 -> n2 <= cap1 -> n1 <= cap2 ->
+  m t = Throw.Raw -> ~ inR b1 cap1 t -> ~ inR b2 cap2 t ->
+  match lift (swap_deep tr m t b1 n1 b2 n2) th with
+  | Throw.Done m' th' => th' = th /\ content m' b1 n2 = content m b2 n2 /\ content m' b2 n1 = content m b1 n1 /\
+                   Rng m' b1 n2 cap1 /\ Rng m' b2 n1 cap2 /\ m' t = Throw.Raw /\
+                   (forall j, ~ inR b1 cap1 j -> ~ inR b2 cap2 j -> m' j = m j)
+  | Throw.Threw _ => False
+  | Throw.Err _ => False end.
+Proof. exact swap_deep_spec. Qed.
+
+Theorem C02_swap_deep_conserves :
+  forall tr m t b1 n1 cap1 b2 n2 cap2 m',
+  Rng m b1 n1 cap1 -> Rng m b2 n2 cap2 -> Disj b1 cap1 b2 cap2 -> n2 <= cap1 -> n1 <= cap2 ->
+  m t = Throw.Raw -> ~ inR b1 cap1 t -> ~ inR b2 cap2 t -> swap_deep tr m t b1 n1 b2 n2 = inl m' ->
+  count_live m' b1 cap1 + count_live m' b2 cap2 = n1 + n2 /\ count_live m b1 cap1 + count_live m b2 cap2 = n1 + n2 /\
+  count_live m' t 1 = 0.
+Proof. exact swap_deep_conserves. Qed.
+
+Theorem C02_move_n :
+  forall tr m th bs n caps bd dn capd,
+  Rng m bs n caps -> Rng m bd dn capd -> Disj bs caps bd capd -> n <= capd ->
+  match lift (move_n tr m bs n bd dn) th with
+  | Throw.Done m' th' => th' = th /\ content m' bd n = content m bs n /\ Rng m' bd n capd /\ Rng m' bs 0 caps /\
+                   (forall j, ~ inR bs caps j -> ~ inR bd capd j -> m' j = m j)
+  | Throw.Threw _ => False
+  | Throw.Err _ => False end.
+Proof. exact move_n_spec. Qed.
+
+Theorem C02_relocate_to_new_buffer :
+  forall tr m th bs n caps bd capd,
+  Rng m bs n caps -> Rng m bd 0 capd -> Disj bs caps bd capd -> n <= capd ->
+  match relocate_to_new_buffer tr m th bs n bd with
+  | Throw.Done m' th' => th' = th /\ Relocated m m' bs n caps bd capd
+  | Throw.Threw _ => False
+  | Throw.Err _ => False end.
+Proof. exact relocate_to_new_buffer_spec. Qed.
+
+Theorem C02_erase_one :
+  forall tr m th size cap pos, Throw.Inv m size cap -> pos < size ->
+  match lift (erase_at tr m pos (size - pos - 1)) th with
+  | Throw.Done m' th' => th' = th /\ Throw.Inv m' (size - 1) cap /\ (forall j, j < pos -> m' j = m j) /\ (forall j, pos <= j < size - 1 -> m' j = m (j + 1)) /\
+                   Slots.abs (ThrowMove.toSm m') (size - 1) = Erase.spec_erase (Slots.abs (ThrowMove.toSm m) size) pos 1
+  | Throw.Threw _ => False
+  | Throw.Err _ => False end.
+Proof. exact erase_at_spec. Qed.
